@@ -43,11 +43,14 @@ func Exec(items []hx.T) (obs []any, nontrivial bool, tags []string) {
 func execOnce(items []hx.T) (obs []any, nontrivial bool, tags []string) {
 	var cfg []hx.Pair
 	seen := map[int64]bool{}
+	dispOf := map[int64]string{}
 	tg := map[string]bool{}
 	for _, it := range items {
 		if it.Name == "Host" {
 			if seen[it.Int(0)] {
 				tg["cfg-duplicate"] = true
+			} else {
+				dispOf[it.Int(0)] = hx.AsTerm(it.Args[1]).Name
 			}
 			seen[it.Int(0)] = true
 			cfg = append(cfg, hx.Pair{A: it.Int(0), B: it.Args[1]})
@@ -62,7 +65,11 @@ func execOnce(items []hx.T) (obs []any, nontrivial bool, tags []string) {
 	retiredSeen := map[int64]bool{}
 	hidden := map[int64]bool{}
 	retiredWhileHidden := false
-	dirState := "Working" // the node state the directory's copies of the own services carry
+	dirState := "Working"        // the node state the directory's copies of the own services carry
+	hostedReported := 0          // hosted services that have reported retired
+	acceptedAfterReport := false // a retire was accepted after some hosted service had reported
+	queried := map[int64]bool{}  // hosted services that received queryretire and answer ok
+	reportedUndeclared := false  // "retired" arrived naming a hosted service that has not declared support
 	for _, it := range items {
 		if it.Name != "Do" {
 			continue
@@ -82,12 +89,28 @@ func execOnce(items []hx.T) (obs []any, nontrivial bool, tags []string) {
 				if reply.Name == "ROk" && state == "Retiring" {
 					tg["retire-again-while-retiring"] = true
 				}
+				if reply.Name == "ROk" && hostedReported > 0 {
+					tg["retire-accepted-after-a-service-reported"] = true
+					acceptedAfterReport = true
+				}
+				if reply.Name != "ROk" && reportedUndeclared {
+					tg["retire-refused-after-retired-from-undeclared-service"] = true
+				}
 			case "CExit", "CWebExit":
 				tg["exit-"+reply.Name] = true
 			}
 		case "OSvcCmd", "ONotify":
 			if op.Name == "ONotify" || hx.AsTerm(op.Args[1]).Name == "SRetired" {
 				n := op.Int(0)
+				if seen[n] && !retiredSeen[n] {
+					hostedReported++
+					if hostedReported == len(seen) && acceptedAfterReport {
+						tg["last-report-after-retire-accepted-after-a-report"] = true
+					}
+				}
+				if seen[n] && !queried[n] {
+					reportedUndeclared = true
+				}
 				switch {
 				case !seen[n]:
 					tg["retired-unknown-service"] = true
@@ -151,6 +174,11 @@ func execOnce(items []hx.T) (obs []any, nontrivial bool, tags []string) {
 		} else if retiredWhileHidden && op.Name == "OCmd" && reply.Name == "ROk" {
 			if c := hx.AsTerm(op.Args[0]).Name; c == "CRetire" || c == "CWebRetire" {
 				tg["retire-reissued-after-unhide"] = true
+			}
+		}
+		for _, x := range ob.Args[2].([]any) {
+			if p := x.(hx.Pair); p.B == "KQuery" && dispOf[p.A.(int64)] == dOk {
+				queried[p.A.(int64)] = true
 			}
 		}
 		for _, e := range evs {
@@ -297,6 +325,9 @@ func genStory(cfg *hx.Config) []hx.T {
 		add(queryAll())
 	}
 	noise()
+	if len(toks) > 0 && r.Intn(6) == 0 { // a service reports while the node is still working
+		add(retired(hx.Pick(r, toks)))
+	}
 	add(cmd(hx.Pick(r, []string{"CRetire", "CRetire", "CWebRetire"})))
 	noise()
 	if r.Intn(3) == 0 { // the operator repeats retire (a service missed it), maybe after a membership change
@@ -317,6 +348,9 @@ func genStory(cfg *hx.Config) []hx.T {
 		}
 		if r.Intn(5) == 0 {
 			items = append(items, retired(toks[i])) // repeated
+		}
+		if r.Intn(4) == 0 { // retire repeated between the reports
+			add(cmd(hx.Pick(r, []string{"CRetire", "CWebRetire"})))
 		}
 		noise()
 	}
